@@ -5,8 +5,6 @@ EXTENDS Tool, TLC, Json
 CONSTANTS NLay, NameSet, Shapes, Export
 VARIABLES main, drop, shp, stage, bad
 vars == <<main, drop, shp, stage, bad>>
-MShape(s) == CASE s \in {"bb", "bn", "bs"} -> "both" [] s \in {"nb", "nn", "ns"} -> "nogroup" [] OTHER -> "section"
-DShape(s) == CASE s \in {"bb", "nb", "sb"} -> "both" [] s \in {"bn", "nn", "sn"} -> "nogroup" [] OTHER -> "section"
 Tree == [main |-> main, drop |-> drop, mshape |-> MShape(shp), dshape |-> DShape(shp)]
 Init == main = <<>> /\ drop = <<>> /\ stage = 0 /\ shp \in Shapes /\ bad = <<>>
 Grow == /\ stage < NLay /\ stage' = stage + 1
